@@ -339,6 +339,23 @@ def run(repo, pid):
        f'class attributes: {class_attrs}')
     w = writers_of(cfg, '_SCOPE_MANAGER')
     ob('config.py/write_sites/_SCOPE_MANAGER/never_rebound', not w, f'{w}')
+  if pid in ('C08', 'C20', 'C05'):
+    # the representation of a SelectorMap is private to its own methods (class invariant)
+    bad = []
+    for fname in ('config.py', 'config_parser.py', 'utils.py', 'resource_reader.py'):
+      for n in ast.walk(repo.tree[fname]):
+        if isinstance(n, ast.Attribute) and n.attr in ('_selector_tree', '_selector_map'):
+          bad.append((fname, n.lineno))
+    sm = repo.tree['selector_map.py']
+    for q, fn in _functions(sm):
+      for n in _own_nodes(fn):
+        if isinstance(n, ast.Attribute) and n.attr in ('_selector_tree', '_selector_map'):
+          ok = q.startswith('SelectorMap.') and isinstance(n.value, ast.Name) and \
+              n.value.id in ('self', 'sm')
+          if not ok:
+            bad.append((q, n.lineno))
+    ob('selector_map.py/SelectorMap/representation_private_to_its_methods', not bad,
+       f'other accesses: {bad}')
   if pid == 'C13':
     fn = _fn(cfg, 'register.perform_decoration')
     ok = False
